@@ -167,14 +167,18 @@ func strBinop(ex *Exec, op token.Token, x, y value) value {
 // ---- channels ----
 
 type vchan struct {
-	buf    []value
-	cap    int
-	closed bool
-	elem   types.Type
+	buf         []value
+	cap         int
+	closed      bool
+	elem        types.Type
 	recvWaiting int // receivers announced by the harness (vExpectRecv): lets a send on an unbuffered channel proceed
 }
 
 func chanSend(ex *Exec, ch *vchan, v value) {
+	if ex.coop() {
+		coopSend(ex, ch, v)
+		return
+	}
 	if ch == nil {
 		ex.abort(AbortBlocked, "send on nil channel")
 	}
@@ -191,6 +195,9 @@ func chanSend(ex *Exec, ch *vchan, v value) {
 }
 
 func chanRecv(ex *Exec, ch *vchan) (value, bool) {
+	if ex.coop() {
+		return coopRecv(ex, ch)
+	}
 	if ch == nil {
 		ex.abort(AbortBlocked, "receive from nil channel")
 	}
@@ -248,6 +255,28 @@ func doSelect(fr *frame, instr *ssa.Select) value {
 			}
 		}
 	}
+	if ex.coop() {
+		ready = selectReady(fr, instr)
+	}
+	if ex.coop() && instr.Blocking {
+		for len(ready) == 0 {
+			// park on every receive case of an unbuffered channel, let the others run, look again
+			var parked []*vchan
+			for _, st := range instr.States {
+				if ch := fr.get(st.Chan).(*vchan); ch != nil && st.Dir == types.RecvOnly && ch.cap == 0 {
+					ch.recvWaiting++
+					parked = append(parked, ch)
+				}
+			}
+			ex.yield("select in " + fr.fn.Name())
+			for _, ch := range parked {
+				if len(ch.buf) == 0 && ch.recvWaiting > 0 {
+					ch.recvWaiting--
+				}
+			}
+			ready = selectReady(fr, instr)
+		}
+	}
 	if len(ready) == 0 && instr.Blocking && ex.idleHook != nil && !ex.inHook {
 		// nothing can proceed: let the harness's idle hook play the other goroutines / the environment, then look again
 		ex.inHook = true
@@ -303,3 +332,23 @@ func doSelect(fr *frame, instr *ssa.Select) value {
 	}
 	return r
 }
+
+func selectReady(fr *frame, instr *ssa.Select) []int {
+	var ready []int
+	for i, st := range instr.States {
+		ch := fr.get(st.Chan).(*vchan)
+		if ch == nil {
+			continue
+		}
+		if st.Dir == types.RecvOnly {
+			if len(ch.buf) > 0 || ch.closed {
+				ready = append(ready, i)
+			}
+		} else if ch.closed || len(ch.buf) < ch.cap || (len(ch.buf) == 0 && ch.recvWaiting > 0) {
+			ready = append(ready, i)
+		}
+	}
+	return ready
+}
+
+func stringType() types.Type { return types.Typ[types.String] }
